@@ -152,12 +152,12 @@ theorem check_sim (i : Inst) (hw : WFpos i) {s s' : State} {as : List Nat} (h : 
       by_cases ha0 : a = 0
       · subst ha0
         simp only [if_true]
-        have hdel : delivered i s 0 = 0 := by simp only [delivered, hi.e.rem0]; omega
+        have hdel : delivered i s 0 = 0 := by simp only [delivered_eq, hi.e.rem0]; omega
         have hd0' : dem 0 - min (dem 0) (i.cap - used) = 0 := by
           have := hr.used
           rcases hr.d0 with h | h <;> omega
         apply ih _ _ _ hi'
-        · refine ⟨?_, by simp [env, step], Or.inl (by simp [hd0']), fun _ => ⟨rfl, by simp [hd0']⟩⟩
+        · refine ⟨?_, by simp [step_used], Or.inl (by simp [hd0']), fun _ => ⟨rfl, by simp [hd0']⟩⟩
           intro j hj
           have hne : j ≠ 0 := by omega
           simp only [upd_apply, hne, if_false, env, step]
@@ -167,7 +167,7 @@ theorem check_sim (i : Inst) (hw : WFpos i) {s s' : State} {as : List Nat} (h : 
       · simp only [ha0, if_false]
         have hda : dem a = s.rem a := hr.custs a (by omega)
         have hdq : min (dem a) (i.cap - used) = delivered i s a := by
-          simp only [delivered, hda, hr.used]
+          simp only [delivered_eq, hda, hr.used]
         apply ih _ _ _ hi'
         · refine ⟨?_, ?_, ?_, ?_⟩
           · intro j hj
@@ -175,7 +175,7 @@ theorem check_sim (i : Inst) (hw : WFpos i) {s s' : State} {as : List Nat} (h : 
             split
             · rename_i h; subst h; rw [hda]
             · exact hr.custs j hj
-          · simp only [env, step, ne_eq, ha0, not_false_eq_true, if_true, ← hdq, hr.used]
+          · rw [step_used]; simp only [ne_eq, ha0, not_false_eq_true, if_true, ← hdq, hr.used]
           · have hne : (0 : Nat) ≠ a := fun h => ha0 h.symm
             simp only [upd_apply, hne, if_false]; exact hr.d0
           · intro hp
